@@ -104,7 +104,7 @@ def run_case(ctx, case, d, idx, sup):
     o.raw_fiemap = fsutil.raw_fiemap(src)
     o.seek_layout = fsutil.seek_layout(src)[1]
     argv = [ctx.bins[getattr(case, "binary", "xcp")]]
-    argv += ["--driver", case.driver, "-w", str(case.workers), "--reflink", case.reflink]
+    argv += ["--driver", case.driver, "-w", str(case.workers), "--reflink", getattr(case, "reflink_spelling", None) or case.reflink]
     if case.bs == "noprogress":
         argv += ["--no-progress"]
     else:
